@@ -226,7 +226,10 @@ def gen_case(rng, direction, n, cid, opts=None):
     # nothing about when its predecessor must end, and is not a task to be scheduled here
     xsucc = []
     if direction == "bwd" and rng.random() < 0.12:
-        xsucc.append({"t": rng.randint(1, n), "inwbs": rng.random() < 0.5, "after": rng.choice([0, 0, 1, 14])})
+        xsucc.append({"t": rng.randint(1, n), "inwbs": rng.random() < 0.5, "after": rng.choice([0, 0, 1, 14]), "twin": 0})
+        inside = [s for s in range(1, n + 1) if xsucc[0]["t"] in tasks[s - 1]["pre"]]
+        if inside and xsucc[0]["after"] and rng.random() < 0.7:
+            xsucc[0]["twin"] = rng.choice(inside)      # ... it carries the id of an inside successor of that task
     # resources
     pool = cal_pool(base)
     names = ["A", "B", NONE_NAME]
@@ -238,7 +241,7 @@ def gen_case(rng, direction, n, cid, opts=None):
     for t in tasks:
         nm = rng.choice(names[:2]) if rng.random() < 0.85 else NONE_NAME
         if nm not in used:
-            supplied = nm != NONE_NAME and rng.random() < 0.8
+            supplied = rng.random() < (0.8 if nm != NONE_NAME else 0.25)
             if supplied:
                 choices = [c for c in pool if (never_ok or not c[3])]
                 c = rng.choice(choices if not never_ok else [x for x in pool if x[3]] + choices[:2])
@@ -326,6 +329,19 @@ def gen_case(rng, direction, n, cid, opts=None):
          "defEst": q4(rng.choice([0, 0, 8, 10, 1])), "pstart": pstart, "now": now, "tasks": tasks, "roots": roots,
          "resources": resources, "ext": ext, "xsucc": xsucc, "strids": rng.random() < 0.08, "linksfirst": rng.random() < 0.25,
          "noise": False, "tod": any(r["calname"] in ("tod-end", "div0") for r in resources)}
+    if direction == "fwd" and rng.random() < 0.05:
+        # a milestone that still carries its dates from an earlier plan, listed AFTER the task that waits for it and
+        # itself waiting for a task listed later still
+        leaves = [i for i, t in enumerate(tasks, start=1) if not t["kids"]]
+        if len(leaves) >= 3:
+            a, b, c = sorted(rng.sample(leaves, 3))
+            if (b in tasks[a - 1]["pre"] or legal_link(tasks, a, b)) and not tasks[b - 1]["pre"]:
+                tb = tasks[b - 1]
+                if b not in tasks[a - 1]["pre"]:
+                    tasks[a - 1]["pre"].append(b)
+                if legal_link(tasks, b, c):
+                    tb["pre"].append(c)
+                    tb.update(ms=True, est=NOQ, spent=NOQ, minStart=MISSING, fstart=now - 5 * DAY, fend=now - 5 * DAY)
     for t in tasks:
         t["noise"] = 0
     if rng.random() < 0.08:
@@ -443,7 +459,8 @@ def build_wbs(I, keep=None):
             w.remove(exts[k - 1])
     for k, e in enumerate(I.get("xsucc", []), start=1):
         if e["t"] in objs:
-            sx = pj.Task(9600 + k, name="extsucc%d" % k, estimate=8)
+            sx = pj.Task(aid(I, I["tasks"][e["twin"] - 1]["id"]) if e.get("twin") else 9600 + k, name="extsucc%d" % k,
+                         estimate=8)
             if e.get("after"):
                 # dated, and not before the requested end: it cannot ask for anything the deadline does not ask for
                 sx.start = inst(I["pstart"] + e["after"] * DAY)
